@@ -2,6 +2,7 @@ import ScnrVerif.Model.Iter
 import ScnrVerif.Model.SpecFind
 import ScnrVerif.Model.SpecIter
 import ScnrVerif.Model.Equiv
+import ScnrVerif.Model.SpecPat
 import Std.Data.HashMap
 /-!
 # Line-protocol driver for the executable model (`lake exe scnr_model < case.in`)
@@ -143,8 +144,17 @@ def specVerdict (st : DState) (real : List String) : Array SpecIt × Option Stri
         if parsed.length != bs.length then some "S FAIL findall: wrong number of positions" else
         let bad := (bs.zip parsed).filter fun ((p, w), (q, r)) =>
           p != q || !(specFindOK M st.cm 0 w (r.map fun (t, l) => (t, l)))
+        -- pattern-level rule (C01) when the reference patterns of a lookahead-free mode are given
+        let ps := st.pats.getD m []
+        let cmR : Nat → Nat → Bool := cmT st.rtables.toList
+        let badPat := if ps.isEmpty || !M.las.isEmpty then [] else
+          (bs.zip parsed).filter fun ((_, w), (_, r)) => !(patFindOK cmR ps w r)
         match bad with
-        | [] => some "S ok"
+        | [] =>
+          match badPat with
+          | [] => some "S ok"
+          | ((p, _), (_, r)) :: _ =>
+            some s!"S FAIL findall mode {m} at byte {p}: real result {r} is not the longest match of the first listed pattern (pattern-level rule)"
         | ((p, _), (_, r)) :: _ =>
           some s!"S FAIL findall mode {m} at byte {p}: real result {r} is not the best candidate of the trailing-context rule")
   | ["findall", _], _ => (sp, some "S FAIL findall: real crate panicked or gave no table")
